@@ -397,7 +397,7 @@ func (x *exec) insertRow(pos int, data []string, app bool) {
 	}
 	var cands []cand
 	if !sh.plain[0] {
-		cands = append(cands, cand{kfInsRow, []string{"C09.G3.span", "C09.G3.nonempty", "C09.G4.newrow"}})
+		cands = append(cands, cand{kfInsRow, []string{"C09.G3.span"}})
 	}
 	if pos >= 0 && pos < sh.R && hasContinue(&pre.Rows[pos]) {
 		cands = append(cands, cand{kfRowVM, []string{"C09.G3.vmerge"}})
@@ -536,7 +536,7 @@ func (x *exec) insertColumn(pos int, data []string, width int, app bool) {
 		if pos < 0 || pos > sh.G {
 			want = mustErr
 		}
-		cands = append(cands, cand{kfColStruct, []string{"C09.G1", "C09.G3", "C09.G4.cols", "C09.G5"}})
+		cands = append(cands, cand{kfColStruct, []string{"C09.G1", "C09.G3", "C09.G4.cols"}})
 	}
 	if !x.call(want, "C09.G4.decision", cands, func() error {
 		if app {
@@ -629,7 +629,7 @@ func (x *exec) deleteColumns(s, e int, single bool) {
 		if want == mustOK {
 			want = either
 		}
-		cands = append(cands, cand{kfColStruct, []string{"C09.G1", "C09.G3", "C09.G4.cols", "C09.G5"}})
+		cands = append(cands, cand{kfColStruct, []string{"C09.G1", "C09.G3", "C09.G4.cols"}})
 	}
 	if !x.call(want, "C09.G4.decision", cands, func() error {
 		if single {
@@ -756,7 +756,7 @@ func (x *exec) mergeH(r, a, b int) {
 		x.res.Label("range:single-cell")
 	default:
 		if mergedInRange(&pre.Rows[r], a, b) {
-			cands = append(cands, cand{kfMergeOver, []string{"C09.G3"}})
+			cands = append(cands, cand{kfMergeOver, []string{"C09.G3.span", "C09.G3.vmerge"}})
 		} else if sh.plain[r] {
 			want, exact = mustOK, true
 		}
@@ -897,6 +897,32 @@ func (x *exec) mergeV(a, b, c int) {
 	}
 }
 
+// rlayout: (grid start of physical cell ca, grid columns covered by physical cells ca..cb) in every row ra..rb,
+// "" when they all agree (the vertical part of a range merge then pairs cells of one grid column and one span).
+func rlayout(t *document.Table, ra, rb, ca, cb int) string {
+	first := ""
+	for i := ra; i <= rb && i < len(t.Rows); i++ {
+		if i < 0 {
+			continue
+		}
+		row := &t.Rows[i]
+		cur := "absent"
+		if ca >= 0 && cb < len(row.Cells) {
+			w := 0
+			for j := ca; j <= cb; j++ {
+				w += span(&row.Cells[j])
+			}
+			cur = fmt.Sprintf("%d+%d", gridStart(row, ca), w)
+		}
+		if first == "" {
+			first = cur
+		} else if cur != first {
+			return fmt.Sprintf("row %d: %s, row %d: %s", ra, first, i, cur)
+		}
+	}
+	return ""
+}
+
 func (x *exec) mergeRange(ra, rb, ca, cb int) {
 	sh, t, pre := x.sh, x.t, x.pre
 	want := either
@@ -914,10 +940,13 @@ func (x *exec) mergeRange(ra, rb, ca, cb int) {
 			over = over || mergedInRange(&pre.Rows[i], ca, cb)
 		}
 		if !allPlain {
-			cands = append(cands, cand{kfRangeAtomic, []string{"C09.G2"}}, cand{kfMergeVPhys, []string{"C09.G3.vmerge"}})
+			cands = append(cands, cand{kfRangeAtomic, []string{"C09.G2"}})
+		}
+		if rlayout(pre, ra, rb, ca, cb) != "" {
+			cands = append(cands, cand{kfMergeVPhys, []string{"C09.G3.vmerge"}})
 		}
 		if over {
-			cands = append(cands, cand{kfMergeOver, []string{"C09.G3"}})
+			cands = append(cands, cand{kfMergeOver, []string{"C09.G3.span", "C09.G3.vmerge"}})
 		}
 		if allPlain && !over {
 			want, exact = mustOK, true
